@@ -4,6 +4,7 @@ import (
 	"fmt"
 	"math/big"
 	"math/rand"
+	"os"
 	"strings"
 	"time"
 
@@ -244,8 +245,18 @@ func (e *csEnv) project(ctx sdk.Context) any {
 	fn, fd := ratOf(p.Fee)
 	un, ud := ratOf(p.UnilateralLiquidityFee)
 	tn, td := ratOf(p.TaxRate)
+	// the application's blocked addresses among the tracked accounts (the fee
+	// pool stands for the fee collector and the distribution account)
+	blocked := []any{}
+	bl := c.App.BankKeeper.GetBlockedAddresses()
+	if bl[chain.ModuleAddr(authtypes.FeeCollectorName).String()] {
+		blocked = append(blocked, "feepool")
+	}
+	if bl[chain.ModuleAddr(cstypes.ModuleName).String()] {
+		blocked = append(blocked, "module")
+	}
 	return chain.M{
-		"now": now, "seq": seq, "std": k.GetStandardDenom(ctx),
+		"now": now, "seq": seq, "std": k.GetStandardDenom(ctx), "blocked": blocked,
 		"params": chain.M{"feeNum": fn, "feeDen": fd, "uniNum": un, "uniDen": ud, "taxNum": tn, "taxDen": td,
 			"fee": sm(p.PoolCreationFee.Amount), "feeDenom": p.PoolCreationFee.Denom},
 		"pools": pools, "bal": bal, "supply": supply,
@@ -375,6 +386,9 @@ func (e *csEnv) runBlock(pending []chain.M, dtNext int64, w *chain.TraceWriter) 
 	for i, ev := range pending {
 		r := res.Txs[i]
 		e.fillResp(ev, r)
+		if !r.OK && os.Getenv("COINSWAP_DEBUG") != "" {
+			fmt.Fprintf(os.Stderr, "rejected %v %v: %s\n", ev["name"], ev["who"], r.Log)
+		}
 		st := r.State
 		if st == nil {
 			st = res.BeginState
